@@ -161,6 +161,10 @@ func (c08) Generate(r *sim.Rand, tier string) *sim.Scenario {
 	if r.Bool(0.25) {
 		maxSteps = maxSteps * 3 / 2 // long histories
 	}
+	pChain := []float64{0, 0, 0.5, 0.9}[r.Intn(4)]
+	if pChain > 0.8 {
+		maxSteps = maxSteps * 2
+	}
 	nsteps := r.Range(4, maxSteps)
 	sc.Cfg["clients"] = float64(nclients)
 	sc.Cfg["rngseed"] = float64(r.Intn(1 << 30))
@@ -176,6 +180,10 @@ func (c08) Generate(r *sim.Rand, tier string) *sim.Scenario {
 	}
 	// swarm weights
 	wCreate, wOp, wBP, wReset, wGrad, wBad := 3, 10, r.Range(1, 4), r.Range(0, 3), r.Range(0, 2), r.Range(0, 2)
+	if pChain > 0.8 && r.Bool(0.7) {
+		// deep graphs: no back-propagation before the final sweep, few resets
+		wBP, wReset, wCreate = 0, r.Range(0, 1), 1
+	}
 	total := wCreate + wOp + wBP + wReset + wGrad + wBad
 	var live []int // ids in pool, in creation order
 	avs := func() []avail {
@@ -223,8 +231,12 @@ func (c08) Generate(r *sim.Rand, tier string) *sim.Scenario {
 		case x < wCreate+wOp:
 			av := avs()
 			o.Client = c
-			// prefer recent tensors and other clients' tensors alike
+			// prefer recent tensors and other clients' tensors alike; in chain
+			// mode mostly the newest one (deep graphs)
 			xa := av[r.Intn(len(av))]
+			if r.Bool(pChain) {
+				xa = av[len(av)-1]
+			}
 			steps := propose(r, ids, av, xa, &o)
 			if len(steps) == 0 {
 				continue
@@ -660,7 +672,11 @@ func (prop c08) Execute(sc *sim.Scenario) *sim.Outcome {
 						// rank 0 is itself invalid for Dot: still an error
 					}
 				case "matmul":
-					o2, _ := tensor.Ones([]int{97, 2}, nil)
+					inner := 2
+					if len(shp) > 0 {
+						inner = shp[len(shp)-1] + 1 // never the operand's last dimension
+					}
+					o2, _ := tensor.Ones([]int{inner, 2}, nil)
 					r := sim.ApplyOn(sim.Step{Op: "matmul", Out: -1}, []tensor.Tensor{x, o2})
 					got, err = r.T, r.Err
 				case "concat":
@@ -672,7 +688,7 @@ func (prop c08) Execute(sc *sim.Scenario) *sim.Outcome {
 				case "sumalong":
 					got, err = x.SumAlong(len(shp))
 				case "slice":
-					got, err = x.Slice([]tensor.Range{{From: 0, To: 99}})
+					got, err = x.Slice([]tensor.Range{{From: 0, To: 1 << 40}})
 				case "broadcast":
 					got, err = x.Broadcast(append(cpI(shp), 0))
 				}
